@@ -6,6 +6,7 @@ package main
 import (
 	"fmt"
 	"go/token"
+	"regexp"
 	"strings"
 
 	"golang.org/x/tools/go/ssa"
@@ -388,6 +389,13 @@ func runC11On(c *Ctx, r *Report, fn, pack *ssa.Function, control bool) map[strin
 	start, _ := fr.vals[ps[1]].(AInt)
 	bit, _ := fr.vals[ps[2]].(AInt)
 	i := bit.a.sub(start.a)
+	// finding signatures name the parameters by role, not by their spelling in the source
+	canon := func(s string) string {
+		for k, role := range []string{"payload", "start", "address"} {
+			s = regexp.MustCompile(`\b`+regexp.QuoteMeta(ps[k].Name())+`\b`).ReplaceAllString(s, role)
+		}
+		return s
+	}
 	for _, o := range an.obligs {
 		if control {
 			if !o.ok {
@@ -447,7 +455,7 @@ func runC11On(c *Ctx, r *Report, fn, pack *ssa.Function, control bool) map[strin
 				r.ok("R11.1", id, "tested byte is payload[(address-start) div 8]", pos, true)
 			} else {
 				r.fail("R11.1", id, "tested byte is not payload[(address-start) div 8]", pos,
-					fmt.Sprintf("byte index = %s, specification = %s", idx.String(), wantIdx.String()), "byteindex="+idx.String())
+					fmt.Sprintf("byte index = %s, specification = %s", idx.String(), wantIdx.String()), "byteindex="+canon(idx.String()))
 			}
 			if okSh {
 				r.ok("R11.1", id, "tested bit is (address-start) mod 8", pos, true)
@@ -488,9 +496,10 @@ func runC11On(c *Ctx, r *Report, fn, pack *ssa.Function, control bool) map[strin
 		return fired
 	}
 	norm := func(a Aff, from string) string { return strings.ReplaceAll(a.String(), from, "k") }
+	_ = norm
 	packS := norm(pi.idx, pi.jKey)
 	if unpackIdx != nil {
-		unpackS := norm(*unpackIdx, "bit-startBit")
+		unpackS := canon(norm(*unpackIdx, ps[2].Name()+"-"+ps[1].Name()))
 		unpackS = strings.ReplaceAll(unpackS, i.String(), "k")
 		if packS == unpackS {
 			r.ok("R11.2", id, "lookup and CoilsToBytes place coil k in the same byte: "+packS, pi.pos, true)
